@@ -136,6 +136,20 @@ def run(prog: Program, roots=None, prop="C08") -> Results:
     if prop == "C08":
         refusal_guards(prog, res)
         fallback_handlers(prog, res, closure)
+        from sa.defassign import maybe_unbound
+        r7 = res.rule("R-C08-7", "no implicit UnboundLocalError in the edit closure: every read of a local is preceded by an assignment "
+                      "on every path (only KeyError/ValueError may leave a rejected edit)", floor=40)
+        for k in sorted(closure):
+            f = prog.funcs.get(k)
+            if f is None:
+                continue
+            for g in [f] + list(f.nested.values()):
+                r7.instances += 1
+                names = sorted({x.id for x, _ in maybe_unbound(g)})
+                r7.ob(not names, None if not names else {"site": g.key, "maybe_unassigned": names})
+                for n_ in names:
+                    res.add("R-C08-7", (g.key, "local may be read before assignment", n_), g.loc(),
+                            f"{g.key}: `{n_}` may be read before any assignment on some path: UnboundLocalError would escape set/rm")
     res.tables.append(f"sa/tables/reviewed.py: {len(INFEASIBLE_PAIRS)} infeasible mutate-then-raise pairs (witness re-checked each run), "
                       f"{len(BENIGN_MUTATIONS)} benign text-preserving normalisations")
     res.assumptions = ["the final source.rebuild() is the emission step, not a rejection point (its failures belong to C20)",
